@@ -119,7 +119,7 @@ class _Run:
         st = cfg["stack"]
         # a view that leaves no column for the wrapped widget is outside the checked sizes (see assumptions):
         # a live program cannot skip a frame, so full-stack runs keep the terminal wider than the bar
-        min_cols = (cfg["bar"].get("width", 1) + 1) if cfg.get("bar") else 1
+        min_cols = (max([cfg["bar"].get("width", 1)] + [int(o.get("width") or 0) for o in scen["ops"] if o["op"] == "bar"]) + 1) if cfg.get("bar") else 1
         size = [max(min_cols, cfg["size"][0]), cfg["size"][1]]
         first_size = list(size)
         events = []
@@ -140,7 +140,7 @@ class _Run:
             elif k == "resize":
                 size = list(op["size"])
                 events.append({"ev": "resize", "t": t, "cols": size[0], "rows": size[1]})
-            elif k in ("setpos", "content"):
+            elif k in ("setpos", "content", "bar"):
                 events.append({"ev": "app", "t": t, "op": op})
         self.stack_last = None
 
@@ -150,6 +150,8 @@ class _Run:
                 self.log.add("setpos", op["p"])
                 if op["p"] < 0:
                     res.probe("negative_position")
+            elif op["op"] == "bar":
+                self.change_bar(op)
             else:
                 self.change_content(op)
             self.stack_last = None
@@ -259,6 +261,10 @@ class _Run:
                     if op.get("swap") is not None:
                         prev_frame = None
                         handled_key_since_render = None
+                elif k == "bar":
+                    self.change_bar(op)
+                    last = None
+                    prev_frame = None
                 elif k == "focus":
                     focus = bool(op.get("on", True))
                 elif k == "render":
@@ -313,6 +319,21 @@ class _Run:
         self.res.probe("position_change_checked")
 
     direct = False
+    cur_side = None  # the bar's side after the application's last change (None: the configured one)
+
+    def change_bar(self, op: dict) -> None:
+        """The application moves the bar to the other side and / or changes its width (ScrollBar.scrollbar_side,
+        scrollbar_width are settable properties)."""
+        if self.bar is None:
+            return
+        if op.get("side"):
+            self.bar.scrollbar_side = op["side"]
+            self.cur_side = op["side"]
+        if op.get("width"):
+            self.bar.scrollbar_width = int(op["width"])
+            self.bw = int(op["width"])
+        self.log.add("bar", [op.get("side"), op.get("width")])
+        self.res.probe("bar_side_or_width_changed")
 
     def hook_inner(self, inner) -> None:
         """Record (on the instance) whether the wrapped widget handled the last key / mouse event."""
@@ -409,7 +430,7 @@ class _Run:
         if bar is not None:
             texts = [row_text(r) for r in got]
             if has_bar:
-                if self.scen["config"]["bar"].get("side", "right") == "right":
+                if (self.cur_side or self.scen["config"]["bar"].get("side", "right")) == "right":
                     bar_col = [t[child_cols:] for t in texts]
                     texts = [t[:child_cols] for t in texts]
                 else:
@@ -570,6 +591,10 @@ class _ListRun(_Run):
                         del walker[op.get("i", 0) % len(walker)]
                     self.log.add("content", ["list", len(walker)])
                     last = None
+                elif k == "bar":
+                    self.change_bar(op)
+                    last = None
+                    rendered_size = None
                 elif k == "focus":
                     focus = bool(op.get("on", True))
                 elif k == "render":
@@ -621,7 +646,7 @@ class _ListRun(_Run):
             return None, None
         if has_bar:
             res.probe("scrollbar_drawn_over_listbox")
-            if self.scen["config"]["bar"].get("side", "right") == "right":
+            if (self.cur_side or self.scen["config"]["bar"].get("side", "right")) == "right":
                 bar_col = [t[child_cols:] for t in got]
                 view = [t[:child_cols] for t in got]
             else:
@@ -758,6 +783,8 @@ class ScrollEngine(Engine):
                     ops[-1]["swap_sc"] = rng.random() < 0.4
             elif q < 0.73:
                 ops.append({"op": "focus", "on": rng.random() < 0.7})
+            elif q < 0.75 and cfg.get("bar"):
+                ops.append({"op": "bar", "side": rng.choice([None, "left", "right"]), "width": rng.choice([None, 1, 2])})
             else:
                 ops.append({"op": "render"})
         ops.append({"op": "render"})
@@ -792,6 +819,8 @@ class ScrollEngine(Engine):
                 ops.append({"op": "content", "n": rng.randrange(6), "grow": rng.random() < 0.5, "i": rng.randrange(40)})
             elif q < 0.72:
                 ops.append({"op": "focus", "on": rng.random() < 0.7})
+            elif q < 0.74:
+                ops.append({"op": "bar", "side": rng.choice([None, "left", "right"]), "width": rng.choice([None, 1, 2])})
             else:
                 ops.append({"op": "render"})
         ops.append({"op": "render"})
